@@ -434,6 +434,13 @@ pub fn run(args: &Args) {
         let dirty = || (0..len).filter(|i| bm.dirty_at(*i)).count();
         slice_matrix(&sb, &format!("{}+bitmap", cname), &frame, &dirty);
     }
+    // a null-based empty slice (as in the crate's own doc examples)
+    {
+        let frame = Frame::new(vec![]);
+        // SAFETY: zero bytes are valid at any address.
+        let s = unsafe { VolatileSlice::new(std::ptr::null_mut(), 0) };
+        slice_matrix(&s, "empty-null", &frame, &|| 0);
+    }
     // random layouts
     for case in args.cases(40) {
         let mut r = Rng::new(args.seed(), "c18", case + 1);
